@@ -2,6 +2,7 @@ package htsim
 
 import (
 	"fmt"
+	"net"
 	"sort"
 	"strings"
 	"testing"
@@ -38,8 +39,12 @@ func genC10(seed uint64, idx int, tier string) *Scenario {
 		gaps = []int64{0}
 	}
 	udpMaxReqV = 1 << 30
+	v6 := r.Chance(0.25)
 	for i := 0; i < nip; i++ {
 		ip := fmt.Sprintf("203.0.113.%d", 10+i)
+		if v6 {
+			ip = fmt.Sprintf("2001:db8::%x", 0x10+i) // genuine IPv6 sources
+		}
 		n := r.Range(1, 12)
 		if r.Chance(0.1) {
 			n = r.Range(50, 200)
@@ -52,7 +57,7 @@ func genC10(seed uint64, idx int, tier string) *Scenario {
 		ports := r.Range(1, 3)
 		acts := make([]Actor, ports)
 		for k := range acts {
-			acts[k] = Actor{Kind: "udp", Name: ip, Src: fmt.Sprintf("%s:%d", ip, 20000+100*i+k), Dst: fmt.Sprintf("%s:%d", sensorIP, p.Port), Svc: pn}
+			acts[k] = Actor{Kind: "udp", Name: ip, Src: net.JoinHostPort(ip, fmt.Sprint(20000+100*i+k)), Dst: fmt.Sprintf("%s:%d", sensorIP, p.Port), Svc: pn}
 		}
 		for _, c := range cmds {
 			k := r.Intn(ports)
